@@ -173,6 +173,13 @@ def skel(ctx, w0, it, acts):
             and same(ctx.input_iterator, it) and not same(ctx.writer, ctx.input_iterator) and allocated(ctx.writer) and allocated(w0))
 
 
+@pred
+def null_width_ok(ctx):
+    # C04: the all-None record a LEFT JOIN pairs with an unmatched A record is as wide as the widest record of the join table
+    return implies(not is_none(ctx.join_map) and not is_none(ctx.join_map_impl) and opt_val(ctx.join_map).kind == 1,
+                   opt_val(ctx.join_map).nullw == max_width(opt_val(ctx.join_map_impl).record_iterator.rows, len(opt_val(ctx.join_map_impl).record_iterator.rows)))
+
+
 @contract('rbql_engine.shallow_parse_input_query', name='C02.parse.skeleton', props=['C02', 'C15', 'C14', 'C04'], store_policy='none')
 def _(query_text: Str, input_iterator: Opt[Obj['rbql_engine.RBQLInputIterator']], tables_registry: Opt[Obj['rbql_engine.RBQLTableRegistry']], query_context: Obj['rbql_engine.RBQLContext']):
     requires(not is_none(input_iterator) and same(query_context.input_iterator, opt_val(input_iterator)), 'input_table_given_by_the_caller')
@@ -185,13 +192,13 @@ def _(query_text: Str, input_iterator: Opt[Obj['rbql_engine.RBQLInputIterator']]
         and allocated(string_literals) and implies(not is_none(input_header), allocated(opt_val(input_header))) and is_none(join_header), 'before_join')
     cut('if UPDATE in rb_actions:', skel(query_context, old(query_context.writer), opt_val(input_iterator), rb_actions) and same(query_context.writer, old(query_context.writer))
         and old(query_context.writer).header_calls == 0 and not query_context.writer.sorted_iface and is_none(query_context.sort_key_expression)
-        and allocated(string_literals) and implies(not is_none(input_header), allocated(opt_val(input_header))) and implies(not is_none(join_header), allocated(opt_val(join_header))) and implies(is_none(input_header), is_none(join_header)), 'before_update')
+        and allocated(string_literals) and implies(not is_none(input_header), allocated(opt_val(input_header))) and implies(not is_none(join_header), allocated(opt_val(join_header))) and implies(is_none(input_header), is_none(join_header)) and null_width_ok(query_context), 'before_update', hide=['max_width'])
     cut('if SELECT in rb_actions:', skel(query_context, old(query_context.writer), opt_val(input_iterator), rb_actions) and same(query_context.writer, old(query_context.writer))
         and implies('SELECT' in rb_actions, old(query_context.writer).header_calls == 0) and not query_context.writer.sorted_iface and is_none(query_context.sort_key_expression)
-        and allocated(string_literals) and implies(not is_none(input_header), allocated(opt_val(input_header))) and implies(not is_none(join_header), allocated(opt_val(join_header))) and implies(is_none(input_header), is_none(join_header)), 'before_select')
+        and allocated(string_literals) and implies(not is_none(input_header), allocated(opt_val(input_header))) and implies(not is_none(join_header), allocated(opt_val(join_header))) and implies(is_none(input_header), is_none(join_header)) and null_width_ok(query_context), 'before_select', hide=['max_width'])
     cut('if ORDER_BY in rb_actions:', skel(query_context, old(query_context.writer), opt_val(input_iterator), rb_actions) and chain_over(query_context.writer, old(query_context.writer))
         and fresh_writer(query_context.writer) and not query_context.writer.sorted_iface and is_none(query_context.sort_key_expression) and query_context.writer.level >= old(query_context.writer).level
-        and allocated(string_literals), 'before_order_by')
+        and allocated(string_literals) and null_width_ok(query_context), 'before_order_by', hide=['max_width'])
     # C15 / C14: nothing is written or finished here, on any path; the header is announced at most once
     ensures(old(query_context.writer).header_calls <= 1 and len(old(query_context.writer).offered) == 0 and not old(query_context.writer).finished, 'header_at_most_once_nothing_written')
     raises('rbql_engine.RbqlParsingError', old(query_context.writer).header_calls <= 1 and len(old(query_context.writer).offered) == 0 and not old(query_context.writer).finished, 'parsing_error_before_any_record')
@@ -200,8 +207,9 @@ def _(query_text: Str, input_iterator: Opt[Obj['rbql_engine.RBQLInputIterator']]
     raises('SyntaxError', len(old(query_context.writer).offered) == 0 and not old(query_context.writer).finished, 'syntax_error_before_any_record')
     raises('AssertionError', len(old(query_context.writer).offered) == 0 and not old(query_context.writer).finished, 'from_clause_although_the_input_is_given (cannot happen once the FROM group is removed: A-PARSE)')
     # C02: the chain; and the context handed to the main loop satisfies the loops' precondition
-    ensures(chain_over(query_context.writer, old(query_context.writer)), 'chain_is_sort_then_dedup_then_truncate')
-    ensures(ctx_inv(query_context) and fresh_writer(query_context.writer), 'context_ready_for_the_main_loop')
+    ensures(chain_over(query_context.writer, old(query_context.writer)), 'chain_is_sort_then_dedup_then_truncate', hide=['max_width'])
+    ensures(ctx_inv(query_context) and fresh_writer(query_context.writer), 'context_ready_for_the_main_loop', hide=['max_width'])
+    ensures(null_width_ok(query_context), 'left_join_null_record_is_as_wide_as_the_widest_join_record', hide=['max_width'])
     modifies(query_context, anything())
 
 
